@@ -1,4 +1,5 @@
 import GV.Gen.G1Consts
+import GV.Lib.CborBytes
 /-
   C30 — minimum fee and size limits.
   Mirrors ledger/common/rules.go `TxSizeForFee`, `CalculateMinFee`, the era
@@ -32,6 +33,19 @@ def decodeArrayHeader (b : List UInt8) : Option Nat :=
         (if rest.length < 8 then none
          else if be (rest.take 8) > maxInt32 then none else some (be (rest.take 8)))
       else none
+
+/-- Number of components of the envelope, read from the bytes by the byte-layer CBOR
+    parser (`GV.Cbor.childSpans`: every header form, indefinite length included): what a
+    full decode of the envelope into `[]cbor.RawMessage` yields. `none` = the bytes do not
+    start with a complete well-formed array. -/
+def isArrayHead : List UInt8 → Bool
+  | x :: _ => x.toNat / 32 == 4
+  | [] => false
+
+def envCount (b : List UInt8) : Option Nat :=
+  match GV.Cbor.childSpans b with
+  | some (_, cs, _) => if isArrayHead b then some cs.length else none
+  | none => none
 
 structure Tx where
   /-- `tx.Type()`: Shelley 1 … Dijkstra 7 -/
